@@ -188,6 +188,8 @@ def listing_combos(name, tier):
 
 
 CWDS = ["root", "subdir", "licenses", "outside"]
+# names of the root directory itself that are special to pattern languages; 'p*x' has a sibling 'pyx' the pattern would also match
+ROOTNAMES = ["p[1]", "[!a] b", "p*x", "p?x", "{a,b}", "r\\d"]
 SPELLINGS = ["absolute", "dot", "relative", "dotdot", "trailing-slash", "no-root-option"]
 
 
@@ -195,7 +197,7 @@ def bounds(tier, seed):
     return {"trees": NAMES, "schedules": "every chunk size 1..n x {forward, reverse, every rotation} of chunk execution order (n = number of jobs)",
             "listing": "every permutation of every directory with <= 4 entries (complete product when <= 600 (quick) / 5000 (thorough) combinations, else <= 2 deviating directories)",
             "hash_seeds": list(range(0, 64 if tier == "quick" else 512))[:3] + ["..."], "n_hash_seeds": 64 if tier == "quick" else 512,
-            "cwds": CWDS, "root_spellings": SPELLINGS, "real_pool_runs": "1 per tree (free-running, sampling, reported separately)"}
+            "cwds": CWDS, "root_spellings": SPELLINGS, "root_directory_names": ["proj"] + ROOTNAMES, "real_pool_runs": "1 per tree (free-running, sampling, reported separately)"}
 
 
 def cases(tier, seed):
@@ -211,6 +213,10 @@ def cases(tier, seed):
             for sp in SPELLINGS:
                 yield {"k": "cwd", "tree": name, "cwd": cwd, "spelling": sp}
         yield {"k": "realpool", "tree": name}
+    for name in NAMES:
+        for rn in ROOTNAMES:
+            for cwd, sp in (("root", "dot"), ("root", "no-root-option"), ("outside", "relative"), ("subdir", "dotdot")):
+                yield {"k": "cwd", "tree": name, "cwd": cwd, "spelling": sp, "rootname": rn}
     nseeds = 64 if tier == "quick" else 512
     for s in range(nseeds):
         yield {"k": "seed", "seed": s}
@@ -278,9 +284,11 @@ def ev_listing(c) -> R:
 def ev_cwd(c) -> R:
     r = R()
     base = fresh_dir("c14base")
-    root = base / "proj"
+    root = base / c.get("rootname", "proj")
     root.mkdir()
     populate(c["tree"], root)
+    if c.get("rootname"):
+        materialise(base / "pyx", {"LICENSES/Zlib.txt": "decoy licence of a neighbouring project\n", "LICENSES/MIT.txt": "decoy\n"})
     ref = observe(root, c["tree"])
     sub = sorted(d for d in dir_entries(c["tree"]) if d and not d.startswith((".reuse", "LICENSES")))
     cwd = {"root": root, "subdir": root / (sub[0] if sub else "LICENSES"), "licenses": root / "LICENSES", "outside": base}[c["cwd"]]
@@ -308,7 +316,8 @@ def ev_cwd(c) -> R:
     got = observe(root, c["tree"], argv_root=argv_root, cwd=str(cwd))
     d = differs(got, ref)
     if d:
-        r.violation(f"cwd-or-root-spelling|{c['cwd']}|{sp}", f"tree {c['tree']}, cwd {c['cwd']}, root given as {argv_root}: {d}")
+        r.violation(f"cwd-or-root-spelling|{c['cwd']}|{sp}" + (f"|rootname={c['rootname']}" if c.get("rootname") else ""),
+                    f"tree {c['tree']}, root directory {root.name!r}, cwd {c['cwd']}, root given as {argv_root}: {d}")
     r.outcome = "cwd-ok" if not d else "cwd-diff"
     r.evals = 4
     r.tags.append("cwd")
